@@ -29,10 +29,10 @@ var (
 var sources = map[string]*net.UDPAddr{"v4": srcV4, "v4b": srcV4b, "v6": srcV6, "mapped": srcMapped, "other": srcOther, "probe": srcProbe}
 
 var (
-	peerID   = sim.InBucket(sim.Root, 2, 9)
-	ihA      = sim.ID{0xaa, 1, 2, 3, 19: 0xa1}
-	ihB      = sim.ID{0xbb, 1, 2, 3, 19: 0xb2}
-	targetT  = sim.ID{0x33, 19: 0x44}
+	peerID  = sim.InBucket(sim.Root, 2, 9)
+	ihA     = sim.ID{0xaa, 1, 2, 3, 19: 0xa1}
+	ihB     = sim.ID{0xbb, 1, 2, 3, 19: 0xb2}
+	targetT = sim.ID{0x33, 19: 0x44}
 )
 
 var tidForms = map[string]string{
